@@ -2,12 +2,21 @@ package absnfs
 
 // vf_clock.go: the virtual clock behind the check-time rewrite of time.Now() / time.Since()
 // in rate_limiter.go and cache.go (DESIGN.md 2.5; vflib build_harness(clock_files=[...])).
-// Shared by the rate-limiter and the cache families; it contains only the clock.
+// Shared by the rate-limiter and the cache families; it contains only the clock and one
+// optional observer of clock reads (nil unless a driver installs it).
 
 import (
 	"sync"
+	"sync/atomic"
 	"time"
 )
+
+// vfClockHook, when set, is called by vfNow before the clock is read, outside the clock's own
+// mutex and on the goroutine that reads the clock.  A driver uses it as a schedule point: the
+// rewritten code reads the clock inside its critical sections (the expiry tests of the caches),
+// so a hook that parks the caller there holds that section open while other goroutines are
+// started (vf_lrucache.go).  Nothing is installed by default.
+var vfClockHook atomic.Pointer[func()]
 
 var vfClock = struct {
 	mu  sync.Mutex
@@ -16,6 +25,9 @@ var vfClock = struct {
 
 // vfNow is what the rewritten files call instead of time.Now().
 func vfNow() time.Time {
+	if h := vfClockHook.Load(); h != nil {
+		(*h)()
+	}
 	vfClock.mu.Lock()
 	defer vfClock.mu.Unlock()
 	return vfClock.now
